@@ -4,6 +4,7 @@ import (
 	"encoding/json"
 	"fmt"
 	"os"
+	"time"
 
 	"verif/harness/c04/cx"
 	"verif/harness/hx"
@@ -38,19 +39,17 @@ func run(cfg *hx.RunCfg) (*hx.Result, error) {
 		record(cx.Job{P: p, Bucket: "replay", NoModel: cx.OutsideModel(p)}, o)
 		return res, nil
 	}
-	n := cfg.N
-	if n == 0 {
-		n = 60
+	t := cx.Tier{Seed: cfg.Seed, N: cfg.N, Check: cx.CheckC05, Printer: wrap}
+	if t.N == 0 {
+		t.N = 60
 		if cfg.Tier == "thorough" {
-			n = 1200
+			t.N, t.Budget = 1200, 6*time.Minute
 		}
 	}
-	r := hx.NewRng(hx.NewRng(cfg.Seed).U64()) // the streams of seeds k and k+1 are shifted copies otherwise
-	var jobs []cx.Job
 	for _, p := range cx.CorpusC05() {
-		jobs = append(jobs, cx.Job{P: p, Bucket: "corpus"})
+		t.Fixed = append(t.Fixed, cx.Job{P: p, Bucket: "corpus", NoModel: cx.OutsideModel(p)})
 	}
-	for i := 0; i < n; i++ {
+	t.Gen = func(r *hx.Rng, i int) cx.Job {
 		p := cx.GenUniqueRace(r)
 		b := "unique-race"
 		if len(p.Init) == 0 {
@@ -63,12 +62,8 @@ func run(cfg *hx.RunCfg) (*hx.Result, error) {
 			p.Free, p.Schedule = true, nil
 			b += "-free"
 		}
-		jobs = append(jobs, cx.Job{P: p, Bucket: b, NoModel: len(p.Init) == 0})
+		return cx.Job{P: p, Bucket: b, NoModel: len(p.Init) == 0 || cx.OutsideModel(p)}
 	}
-	outs := cx.RunAll(jobs, 10, true)
-	for i, j := range jobs {
-		record(j, outs[i])
-	}
-	os.RemoveAll(cx.Scratch)
+	cx.RunTier(res, t)
 	return res, nil
 }
